@@ -55,12 +55,16 @@ func rectOf(ps []geometry.Point) geometry.Rect {
 // checkSeries compares one realised series with the reference model and
 // returns "" or the name of the first attribute that differs.
 func checkSeries(seq []exact.P, fp []geometry.Point, closed bool, o seriesObs) (string, string, string) {
+	return checkSeriesT(seq, fp, closed, o, ident)
+}
+
+func checkSeriesT(seq []exact.P, fp []geometry.Point, closed bool, o seriesObs, t Xf) (string, string, string) {
 	want := exact.Segs(seq, closed)
 	if o.nseg != len(want) {
 		return "numsegments", fmt.Sprint(len(want)), fmt.Sprint(o.nseg)
 	}
 	for i, g := range want {
-		ws := geometry.Segment{A: ident.pt(g[0]), B: ident.pt(g[1])}
+		ws := geometry.Segment{A: t.pt(g[0]), B: t.pt(g[1])}
 		if o.segs[i] != ws {
 			return "segmentat", fmt.Sprintf("seg[%d]=%v", i, ws), fmt.Sprintf("seg[%d]=%v", i, o.segs[i])
 		}
@@ -84,17 +88,19 @@ func checkSeries(seq []exact.P, fp []geometry.Point, closed bool, o seriesObs) (
 
 var idxNone = &geometry.IndexOptions{Kind: geometry.None}
 
-func c18One(seq []exact.P, w *rt.Worker) {
-	fp := ident.pts(seq)
+func c18One(seq []exact.P, w *rt.Worker) { c18OneT(seq, ident, w) }
+
+func c18OneT(seq []exact.P, t Xf, w *rt.Worker) {
+	fp := t.pts(seq)
 	// closed, as given
 	w.States += 2
 	w.Trans += int64(2 * len(seq))
-	ring := geometry.NewPoly(fp, nil, idxNone).Exterior
+	ring := newPolyScribbled(fp, nil, idxNone).Exterior
 	oc := observeSeries(ring)
 	w.Evals++
-	if what, exp, got := checkSeries(seq, fp, true, oc); what != "" {
+	if what, exp, got := checkSeriesT(seq, fp, true, oc, t); what != "" {
 		w.Fail("ring-"+what, func() (rt.Case, string, string) {
-			return rt.Case{Kind: "series", Op: what, A: &rt.G{K: "ring", P: f2(fp)}}, exp, got
+			return rt.Case{Kind: "series", Op: what, A: &rt.G{K: "ring", P: f2(fp)}, X: t.x()}, exp, got
 		})
 	}
 	if len(seq) >= 3 {
@@ -104,12 +110,12 @@ func c18One(seq []exact.P, w *rt.Worker) {
 		w.Outcome(fmt.Sprintf("convex=%v cw=%v", oc.convex, oc.cw))
 	}
 	// open
-	line := geometry.NewLine(fp, idxNone)
+	line := newLineScribbled(fp, idxNone)
 	ol := observeSeries(line)
 	w.Evals++
-	if what, exp, got := checkSeries(seq, fp, false, ol); what != "" {
+	if what, exp, got := checkSeriesT(seq, fp, false, ol, t); what != "" {
 		w.Fail("open-"+what, func() (rt.Case, string, string) {
-			return rt.Case{Kind: "series", Op: what, A: &rt.G{K: "series", P: f2(fp)}}, exp, got
+			return rt.Case{Kind: "series", Op: what, A: &rt.G{K: "series", P: f2(fp)}, X: t.x()}, exp, got
 		})
 	}
 	// closed with the closing vertex repeated
@@ -118,17 +124,17 @@ func c18One(seq []exact.P, w *rt.Worker) {
 		w.Trans++
 		cs := append(append(make([]exact.P, 0, len(seq)+1), seq...), seq[0])
 		cfp := append(append(make([]geometry.Point, 0, len(fp)+1), fp...), fp[0])
-		o2 := observeSeries(geometry.NewPoly(cfp, nil, idxNone).Exterior)
+		o2 := observeSeries(newPolyScribbled(cfp, nil, idxNone).Exterior)
 		w.Evals++
-		if what, exp, got := checkSeries(cs, cfp, true, o2); what != "" {
+		if what, exp, got := checkSeriesT(cs, cfp, true, o2, t); what != "" {
 			w.Fail("ring-"+what, func() (rt.Case, string, string) {
-				return rt.Case{Kind: "series", Op: what, A: &rt.G{K: "ring", P: f2(cfp)}}, exp, got
+				return rt.Case{Kind: "series", Op: what, A: &rt.G{K: "ring", P: f2(cfp)}, X: t.x()}, exp, got
 			})
 		}
 		// direct: repeating the closing vertex must not change the flags
 		if len(seq) >= 3 && seq[len(seq)-1] != seq[0] && (o2.convex != oc.convex || o2.cw != oc.cw) {
 			w.Fail("closing-vertex-dependence", func() (rt.Case, string, string) {
-				return rt.Case{Kind: "series", Op: "closing-invariance", A: &rt.G{K: "ring", P: f2(fp)}},
+				return rt.Case{Kind: "series", Op: "closing-invariance", A: &rt.G{K: "ring", P: f2(fp)}, X: t.x()},
 					"same flags with and without repeated closing vertex",
 					fmt.Sprintf("open(convex=%v cw=%v) closed(convex=%v cw=%v)", oc.convex, oc.cw, o2.convex, o2.cw)
 			})
@@ -143,7 +149,7 @@ func c18One(seq []exact.P, w *rt.Worker) {
 			w.Evals++
 			if o3.Convex() != oc.convex || o3.Clockwise() != oc.cw {
 				w.Fail("rotation-dependence", func() (rt.Case, string, string) {
-					return rt.Case{Kind: "series", Op: "rotation-invariance", A: &rt.G{K: "ring", P: f2(fp)}},
+					return rt.Case{Kind: "series", Op: "rotation-invariance", A: &rt.G{K: "ring", P: f2(fp)}, X: t.x()},
 						"same flags when started at the next vertex",
 						fmt.Sprintf("(convex=%v cw=%v) rotated(convex=%v cw=%v)", oc.convex, oc.cw, o3.Convex(), o3.Clockwise())
 				})
@@ -175,6 +181,20 @@ func runC18(r *rt.Run) {
 		})
 	}
 	r.Bounds["scopes"] = sc
+	// the same tree, small and far away: lattice step 2^-12 at (2^19+5/512, 2^19+3/512),
+	// ordinates with 32 significant bits (differences stay exact, products of absolute ordinates would not)
+	{
+		d := 5
+		if r.Thorough() {
+			d = 6
+		}
+		L := lat.Lattice(3, -1)
+		_, pre := lat.Shards2(L)
+		r.Bounds["far_fine_scope"] = fmt.Sprintf("len<=%d over 3x3 at %v", d, farFineXf)
+		r.ParFor(len(pre), func(i int, w *rt.Worker) {
+			lat.SeqsFrom(L, pre[i], 2, d, func(seq []exact.P) { c18OneT(seq, farFineXf, w) })
+		})
+	}
 	c18NearParallel(r)
 	c18Moved(r)
 	c18RectSeries(r)
@@ -219,7 +239,7 @@ func evalC18(c *rt.Case) (bool, string, string, error) {
 		want := exact.Area2(cyc) < 0
 		return ring.Clockwise() != want, fmt.Sprint(want), fmt.Sprint(ring.Clockwise()), nil
 	}
-	es, ok := exactOf(&rt.G{K: "line", P: c.A.P}, ident)
+	es, ok := exactOf(&rt.G{K: "line", P: c.A.P}, xfOf(c.X))
 	if !ok {
 		return false, "", "", fmt.Errorf("coordinates outside the exact domain")
 	}
@@ -245,6 +265,6 @@ func evalC18(c *rt.Case) (bool, string, string, error) {
 	} else {
 		o = observeSeries(geometry.NewLine(fp, idxNone))
 	}
-	what, exp, got := checkSeries(seq, fp, closed, o)
+	what, exp, got := checkSeriesT(seq, fp, closed, o, xfOf(c.X))
 	return what != "", exp, got, nil
 }
